@@ -10,8 +10,7 @@ CONSTANTS
   StoreOnLoad = FALSE
   Depth = 6
   Hist = FALSE
-CONSTRAINT Bound
-CONSTRAINT Emit
+CONSTRAINT Cons
 CHECK_DEADLOCK FALSE
 VIEW View
 INVARIANT LoadedOncePerEpoch
